@@ -56,7 +56,7 @@ def run(ck, prog):
             rows = ev.run_function(f, args)
         except Undecided:
             rows = None
-        _guard(ck, prog, f, construct, tag)
+        _guard(ck, prog, f, construct, tag, paths=rows)
         # ---- both parities
         for parity, wval in (("even", K * Rat.const(2)), ("odd", K * Rat.const(2) + Rat.const(1))):
             pair = Pair(prog, positive=("N", "k", "w"))
@@ -143,7 +143,7 @@ def _structure(v):
     return pos, a.n, p, b.n
 
 
-def _guard(ck, prog, f, construct, tag, wparam=None):
+def _guard(ck, prog, f, construct, tag, wparam=None, paths=None):
     """MUST: the window guard executes before any use of the window size; DT: it raises iff N < w"""
     ev = Evaluator(prog, positive=("N", "w"))
     g = prog.fn(SEQ, "Sequence.__check_window_to_length")
@@ -152,7 +152,15 @@ def _guard(ck, prog, f, construct, tag, wparam=None):
     mis = compare_rows(rows, spec, positive=("N", "w"))
     ck.ob("DT-guard", SEQ_PATH + ":Sequence.__check_window_to_length", mis is None,
           expected="raises iff len(seq) < window", found=mis or "equivalent", slot="guard-table", where=g.loc())
-    # first statement that mentions the window parameter must be the guard call
+    if paths is not None:
+        # decided on the function's own path table: no path may return an answer when the window is longer than the sequence
+        from lcsa.dt import feasible_with as _fw
+        bad = [p for p in paths if p.kind == "return" and _fw(list(p.conds) + [("cmp", N, "<", Rat.atom("w"))], [], {"N", "w"}, int_atoms={"N", "w"}) is not None]
+        ck.ob("MUST-window-guard", construct, not bad, expected="every answering path requires len(seq) >= window (longer windows are rejected with an error)",
+              found=[fmt_conds(p.conds) for p in bad][:3] or "all answering paths guarded", slot=tag + ":guard", where=f.loc(),
+              note="a window longer than the sequence must be rejected, not answered")
+        return
+    # fallback when the function could not be enumerated: the guard call must be visibly first (its absence is then undecided)
     wparam = wparam or f.params()[1]
     first = None
     for s in f.body():
@@ -170,6 +178,7 @@ def _guard(ck, prog, f, construct, tag, wparam=None):
         if early:
             ok = False
             first = early[0]
+    ck.shape(ok or (first is not None and isinstance(first, ast.Return)), "%s: window guard not visibly the first use of the window size" % f.qual, f.loc())
     ck.ob("MUST-window-guard", construct, ok,
           expected="self.__check_window_to_length(%s) dominates every use of the window size" % wparam,
           found=unparse(first)[:100] if first is not None else None, slot=tag + ":guard", where=f.loc(first) if first is not None else f.loc(),
@@ -226,65 +235,45 @@ def _compositions(ck, prog):
     construct = SEQ_PATH + ":Sequence.linearCompositions"
     m = f.mod
     body = f.body()
-    # (a) default groups: appended literal lists, in order
+    # (a) default groups: literal lists appended in order (a fill written any other way is not decided here)
     apps = []
     for n in ast.walk(f.node):
         if isinstance(n, ast.Call) and isinstance(n.func, ast.Attribute) and n.func.attr == "append" \
                 and isinstance(n.func.value, ast.Name) and n.func.value.id == "grps":
-            try:
-                apps.append((n.lineno, tab.literal(m, n.args[0])))
-            except Undecided:
-                apps.append((n.lineno, None))
-    got = [sorted(x) if isinstance(x, list) else x for _, x in sorted(apps, key=lambda t: t[0])]
+            apps.append((n.lineno, tab.literal(m, n.args[0])))       # Undecided when not a literal
+    ck.shape(len(apps) >= 1, "linearCompositions: default groups appended as literals", f.loc())
+    got = [sorted(x) if isinstance(x, (list, tuple)) else x for _, x in sorted(apps, key=lambda t: t[0])]
     want = [sorted(g) for g in DEFAULT_GROUPS]
     ck.ob("TAB-default-groups", construct, got == want, expected=want, found=got, slot="default-groups", where=f.loc(),
           note="acidic, basic, charged, polar, aliphatic, aromatic, proline - in this order")
-    # (b) user groups: each passes __parse_group, order preserved (append inside a for over grps)
-    sanit = None
+    # (b) user groups pass __parse_group, one by one, order kept
+    parses = [n for n in ast.walk(f.node) if isinstance(n, ast.Call) and getattr(n.func, "attr", "") == "__parse_group"]
+    ck.shape(len(parses) == 1, "linearCompositions: user groups go through __parse_group at one site", f.loc())
+    host = None
     for n in ast.walk(f.node):
-        if isinstance(n, ast.For) and isinstance(n.iter, ast.Name) and n.iter.id == "grps":
-            for st in n.body:
-                if isinstance(st, ast.Expr) and isinstance(st.value, ast.Call) and isinstance(st.value.func, ast.Attribute) \
-                        and st.value.func.attr == "append" and st.value.args \
-                        and isinstance(st.value.args[0], ast.Call) \
-                        and getattr(st.value.args[0].func, "attr", None) == "__parse_group" \
-                        and isinstance(st.value.args[0].args[0], ast.Name) \
-                        and isinstance(n.target, ast.Name) and st.value.args[0].args[0].id == n.target.id:
-                    sanit = st.value.func.value.id if isinstance(st.value.func.value, ast.Name) else None
-    rebinding = any(isinstance(n, ast.Assign) and isinstance(n.targets[0], ast.Name) and n.targets[0].id == "grps"
-                    and isinstance(n.value, ast.Name) and n.value.id == sanit for n in ast.walk(f.node)) if sanit else False
-    ck.ob("MUST-parse-group", construct, bool(sanit and rebinding),
-          expected="user groups validated by __parse_group, one by one, order kept", found={"list": sanit, "rebinds": rebinding},
-          slot="user-groups", where=f.loc())
-    # (c) first row from grps[0], remaining rows from grps[1:] in order, stacked below; positions from the same call
-    first = None
-    loop = None
-    for s in body:
-        if isinstance(s, ast.Assign) and isinstance(s.value, ast.Call) and getattr(s.value.func, "attr", None) == "linearDenistyOfAAs":
-            first = s
-        if isinstance(s, ast.For) and isinstance(s.iter, ast.Subscript) and isinstance(s.iter.value, ast.Name) \
-                and s.iter.value.id == "grps":
-            loop = s
-    ok_first = first is not None and len(first.value.args) == 2 and unparse(first.value.args[0]) == "bloblen" \
-        and unparse(first.value.args[1]) == "grps[0]"
-    ok_loop = False
-    if loop is not None:
-        sl = loop.iter.slice
-        ok_slice = isinstance(sl, ast.Slice) and sl.upper is None and sl.step is None and isinstance(sl.lower, ast.Constant) \
-            and sl.lower.value == 1
-        calls = [n for n in ast.walk(loop) if isinstance(n, ast.Call) and getattr(n.func, "attr", None) == "linearDenistyOfAAs"]
-        ok_call = len(calls) == 1 and len(calls[0].args) == 2 and unparse(calls[0].args[0]) == "bloblen" \
-            and isinstance(loop.target, ast.Name) and unparse(calls[0].args[1]) == loop.target.id
-        stacks = [n for n in ast.walk(loop) if isinstance(n, ast.Call) and getattr(n.func, "attr", None) == "vstack"]
-        ok_stack = len(stacks) == 1 and isinstance(stacks[0].args[0], ast.Tuple) and len(stacks[0].args[0].elts) == 2 \
-            and unparse(stacks[0].args[0].elts[0]) == "density" and unparse(stacks[0].args[0].elts[1]).endswith("[1]")
-        ok_loop = ok_slice and ok_call and ok_stack
-    ck.ob("FOLD-rows", construct, bool(ok_first and ok_loop),
-          expected="row g = density profile of group g, in the caller's order (grps[0], then grps[1:] stacked below)",
-          found={"first": unparse(first) if first is not None else None, "loop": unparse(loop.iter) if loop is not None else None},
-          slot="row-order", where=f.loc())
-    rets = [n for n in ast.walk(f.node) if isinstance(n, ast.Return)]
-    okr = len(rets) == 1 and isinstance(rets[0].value, ast.Tuple) and len(rets[0].value.elts) == 2 \
-        and unparse(rets[0].value.elts[0]).endswith("[0]") and unparse(rets[0].value.elts[1]) == "density"
-    ck.ob("FOLD-rows", construct, okr, expected="(positions from the profile call, stacked densities)",
-          found=unparse(rets[0].value) if rets else None, slot="return", where=f.loc())
+        if isinstance(n, ast.For) and isinstance(n.iter, ast.Name) and n.iter.id == "grps" and any(x is parses[0] for x in ast.walk(n)):
+            host = ("loop", n.target)
+        if isinstance(n, ast.ListComp) and len(n.generators) == 1 and unparse(n.generators[0].iter) == "grps" and any(x is parses[0] for x in ast.walk(n.elt)):
+            host = ("comp", n.generators[0].target)
+    ck.shape(host is not None and isinstance(host[1], ast.Name), "linearCompositions: __parse_group applied while iterating over the caller's groups", f.loc())
+    ck.ob("MUST-parse-group", construct, len(parses[0].args) == 1 and unparse(parses[0].args[0]) == host[1].id,
+          expected="each user group validated by __parse_group, in the caller's order", found=unparse(parses[0]), slot="user-groups", where=f.loc(parses[0]))
+    # (c) rows: first from grps[0], the rest from grps[1:] in order, stacked below; positions from the profile call
+    dens = [n for n in ast.walk(f.node) if isinstance(n, ast.Call) and getattr(n.func, "attr", "") == "linearDenistyOfAAs"]
+    ck.shape(len(dens) == 2 and all(len(d.args) == 2 for d in dens), "linearCompositions: one density call for the first group and one in a loop over the others", f.loc())
+    loops = [s for s in ast.walk(f.node) if isinstance(s, ast.For) and any(x is dens[1] for x in ast.walk(s)) and not any(x is dens[0] for x in ast.walk(s))]
+    ck.shape(len(loops) == 1 and isinstance(loops[0].target, ast.Name), "linearCompositions: loop over the remaining groups", f.loc())
+    loop = loops[0]
+    ck.ob("FOLD-rows", construct, unparse(dens[0].args[0]) == "bloblen" and unparse(dens[0].args[1]).replace(" ", "") == "grps[0]",
+          expected="first row = density of grps[0] at the requested window", found=unparse(dens[0]), slot="first-row", where=f.loc(dens[0]))
+    ck.ob("FOLD-rows", construct, unparse(loop.iter).replace(" ", "") == "grps[1:]" and unparse(dens[1].args[0]) == "bloblen" and unparse(dens[1].args[1]) == loop.target.id,
+          expected="remaining rows = density of each of grps[1:], in the caller's order", found={"iter": unparse(loop.iter), "call": unparse(dens[1])}, slot="row-order",
+          where=f.loc(loop))
+    stacks = [n for n in ast.walk(loop) if isinstance(n, ast.Call) and getattr(n.func, "attr", "") == "vstack"]
+    ck.shape(len(stacks) == 1 and isinstance(stacks[0].args[0], ast.Tuple) and len(stacks[0].args[0].elts) == 2, "linearCompositions: rows stacked with np.vstack((acc, row))", f.loc(loop))
+    acc = unparse(stacks[0].args[0].elts[0])
+    ck.ob("FOLD-rows", construct, acc == "density" or any(isinstance(a, ast.Assign) and unparse(a.targets[0]) == acc for a in ast.walk(loop)),
+          expected="new row stacked BELOW the rows so far", found=unparse(stacks[0]), slot="stack-order", where=f.loc(stacks[0]))
+    rets = [n for n in ast.walk(f.node) if isinstance(n, ast.Return) and n.value is not None]
+    ck.shape(len(rets) == 1 and isinstance(rets[0].value, ast.Tuple) and len(rets[0].value.elts) == 2, "linearCompositions: returns (positions, densities)", f.loc())
+    ck.ob("FOLD-rows", construct, unparse(rets[0].value.elts[1]) == acc, expected="(positions, stacked densities)", found=unparse(rets[0].value), slot="return", where=f.loc(rets[0]))
